@@ -31,7 +31,9 @@ def extra_builds(tier):
 
 
 def bounds(tier):
-    return {"digests": len(KINDS), "key_lengths": "0,1,B-1,B,B+1,2B+5", "message_lengths": "0,1,B-1,B,B+1,2B+3", "chunk_tree_depth": 4 if tier == "thorough" else 3, "every_key_length_0_to_2B+5": "all digests" if tier == "thorough" else "sha256, sha3_256, blake2b:32"}
+    return {"digests": len(KINDS), "key_lengths": "0,1,B-1,B,B+1,2B+5", "message_lengths": "0,1,B-1,B,B+1,2B+3", "chunk_tree_depth": 4 if tier == "thorough" else 3, "every_key_length_0_to_2B+5": "all digests",
+            "every_message_length": "0..=2B+9", "multi_block_calls": "5..20 blocks -1/0/+1; keys of 3..13 blocks", "reset_histories": True, "used_digest_objects": "reset / result+reset / b2key / b2rekey",
+            "huge": "2^29-byte message for sha1, sha256, sha512, ripemd160"}
 
 
 def validate_models(tier):
